@@ -2,6 +2,11 @@
 
 package tcell
 
+import (
+	"github.com/gdamore/tcell/v2/terminfo"
+	"strings"
+)
+
 // C04 — Fini/Suspend restore every terminal mode; Resume re-applies enabled ones;
 // the Tty is driven in contract order.
 
@@ -112,7 +117,7 @@ func (e *h01Env) h04Restored(what string) {
 	p := vt.pen
 	vsymAssert(p.fg.kind == 0 && p.bg.kind == 0, what+": colours are reset")
 	vsymAssert(!p.bold && !p.dim && !p.italic && !p.blink && !p.reverse && !p.strike && p.under == 0, what+": attributes are reset")
-	vsymAssert(!vt.keypad, what+": keypad-application mode is off")
+	vsymAssert(!vt.keypad && !vt.appCursor && !vt.m4, what+": keypad-application mode is off (whatever the description's keypad string switches: DECKPAM, DECCKM, ?4)")
 	vsymAssert(!vt.m1000 && !vt.m1002 && !vt.m1003 && !vt.m1006, what+": mouse tracking is off")
 	vsymAssert(!vt.m2004, what+": bracketed paste is off")
 	vsymAssert(!vt.m1004, what+": focus reporting is off")
@@ -141,7 +146,18 @@ func (e *h01Env) h04Engaged(what string, w *h04Want) {
 		vsymAssert(vt.m1004 == w.focus, what+": focus reporting is on iff enabled")
 	}
 	if ti.EnterKeypad != "" {
-		vsymAssert(vt.keypad, what+": keypad-application mode is on")
+		// "on" means what the description's own keypad string switches on
+		on := true
+		if strings.Contains(ti.EnterKeypad, "\x1b=") {
+			on = on && vt.keypad
+		}
+		if strings.Contains(ti.EnterKeypad, "\x1b[?1h") {
+			on = on && vt.appCursor
+		}
+		if strings.Contains(ti.EnterKeypad, "\x1b[?4h") {
+			on = on && vt.m4
+		}
+		vsymAssert(on, what+": keypad-application mode is on")
 	}
 	if ti.DisableAutoMargin != "" {
 		vsymAssert(!vt.autowrap, what+": auto-margin is off while the screen is engaged")
@@ -209,4 +225,61 @@ func H04_modes() {
 			vsymAssert(e.tty.vt.alt, "after Resume: the alternate screen is entered again")
 		}
 	}
+}
+
+// H04_allterms: every built-in description with CSI cursor addressing (sun's FF-clearing
+// pair excepted, as in H01_allterms), TCELL_ALTSCREEN set or not: every mode the terminal
+// supports is enabled (mouse with one of four flag sets, paste, focus, a cursor style, a
+// title), a frame is drawn; after Suspend everything is restored, after Resume exactly the
+// enabled modes are on again, after Fini everything is restored and the tty closed once.
+func H04_allterms() {
+	ents := terminfo.VerifEntries()
+	ti := ents[vsymChoice("term", len(ents))]
+	vsymNote("term", ti.Name)
+	if !strings.HasPrefix(ti.SetCursor, "\x1b[") || (len(ti.Clear) == 1 && ti.Clear[0] < 0x20) {
+		vsymAssert(ti.Name != "xterm-256color", "the ECMA-48 family includes xterm")
+		return
+	}
+	noalt := vsymChoice("altscreen", 2) == 1
+	if noalt {
+		vsymSetenv("TCELL_ALTSCREEN", "disable")
+	}
+	e := h01New(ti.Name, 3, 1, false)
+	w := &h04Want{}
+	e.h04Engaged("after Init", w)
+	f := []MouseFlags{0, MouseButtonEvents, MouseDragEvents | MouseButtonEvents, MouseMotionEvents}[vsymChoice("flags", 4)]
+	if f == 0 {
+		e.s.EnableMouse()
+		w.mouse = MouseMotionEvents | MouseDragEvents | MouseButtonEvents
+	} else {
+		e.s.EnableMouse(f)
+		w.mouse = f
+	}
+	e.s.EnablePaste()
+	w.paste = true
+	e.s.EnableFocus()
+	w.focus = true
+	e.s.SetCursorStyle(CursorStyleSteadyBar, PaletteColor(int(vsymByte("cc")&7)))
+	e.s.SetTitle("t")
+	e.s.ShowCursor(1, 0)
+	e.set(0, 0, 'a', nil, StyleDefault.Bold(true).Foreground(PaletteColor(int(vsymByte("fg")&7))))
+	e.s.Show()
+	e.h04Engaged("after enabling everything", w)
+	_ = e.s.Suspend()
+	e.h04Restored("after Suspend")
+	_ = e.s.Resume()
+	e.h04Engaged("after Resume", w)
+	if !noalt && e.t.ti.EnterCA != "" {
+		vsymAssert(e.tty.vt.alt, "after Resume: the alternate screen is entered again")
+	}
+	e.s.Show()
+	e.s.Fini()
+	e.h04Restored("after Fini")
+	closes := 0
+	for _, l := range e.tty.log {
+		if l == "Close" {
+			closes++
+		}
+	}
+	vsymAssert(closes == 1, "after Fini: the tty is closed exactly once")
 }
